@@ -17,11 +17,11 @@ theorem Scalar.eq_refl (a : Scalar) : a.eq a = true := (Scalar.eq_iff a a).2 rfl
 
 /-! ### script constructors -/
 
-@[simp] theorem mkMatch_cost (c : Nat) : (mkMatch c).cost = c := rfl
+@[simp] theorem mkMatch_costZ (c : Nat) : (mkMatch c).cost = c := rfl
 @[simp] theorem mkReplace_cost (a b : Nat) : (mkReplace a b).cost = Nat.max a b + 1 := rfl
-@[simp] theorem mkRemove_cost (i s p : Nat) : (mkRemove i s p).cost = s + p := rfl
-@[simp] theorem mkInsert_cost (i s p : Nat) : (mkInsert i s p).cost = s + p := rfl
-@[simp] theorem mkCompound_cost (k : Kind) (l : List Script) : (mkCompound k l).cost = sumCosts l := rfl
+@[simp] theorem mkRemove_costZ (i s p : Nat) : (mkRemove i s p).cost = s + p := rfl
+@[simp] theorem mkInsert_costZ (i s p : Nat) : (mkInsert i s p).cost = s + p := rfl
+@[simp] theorem mkCompound_costZ (k : Kind) (l : List Script) : (mkCompound k l).cost = sumCosts l := rfl
 @[simp] theorem relabel_cost (s : Script) (f t : Ix) : (s.relabel f t).cost = s.cost := rfl
 @[simp] theorem relabel_kind (s : Script) (f t : Ix) : (s.relabel f t).kind = s.kind := rfl
 @[simp] theorem relabel_subs (s : Script) (f t : Ix) : (s.relabel f t).subs = s.subs := rfl
@@ -29,10 +29,10 @@ theorem Scalar.eq_refl (a : Scalar) : a.eq a = true := (Scalar.eq_iff a a).2 rfl
 
 theorem mkReplace_pos (a b : Nat) : 0 < (mkReplace a b).cost := by simp
 
-@[simp] theorem sumCosts_nil : sumCosts [] = 0 := rfl
-@[simp] theorem sumCosts_cons (s : Script) (l : List Script) : sumCosts (s :: l) = s.cost + sumCosts l := by
+@[simp] theorem sumCosts_nilZ : sumCosts [] = 0 := rfl
+@[simp] theorem sumCosts_consZ (s : Script) (l : List Script) : sumCosts (s :: l) = s.cost + sumCosts l := by
   simp [sumCosts]
-@[simp] theorem sumCosts_append (l₁ l₂ : List Script) : sumCosts (l₁ ++ l₂) = sumCosts l₁ + sumCosts l₂ := by
+@[simp] theorem sumCosts_appendZ (l₁ l₂ : List Script) : sumCosts (l₁ ++ l₂) = sumCosts l₁ + sumCosts l₂ := by
   simp [sumCosts]
 
 theorem sumCosts_eq_zero {l : List Script} : sumCosts l = 0 ↔ ∀ s ∈ l, s.cost = 0 := by
@@ -67,7 +67,7 @@ theorem eqL_iff : ∀ (as bs : List Tree), eqL as bs = true ↔
         refine ⟨by simpa using h2 0 (by omega), h1, fun i hi => ?_⟩
         simpa using h2 (i + 1) (by omega)
 
-theorem findKV_iff (k : Str) (v : Tree) : ∀ (bs : List (Str × Tree)),
+theorem findKV_iffZ (k : Str) (v : Tree) : ∀ (bs : List (Str × Tree)),
     findKV k v bs = true ↔ ∃ q ∈ bs, k = q.1 ∧ v.eq q.2 = true := by
   intro bs
   induction bs with
@@ -76,7 +76,7 @@ theorem findKV_iff (k : Str) (v : Tree) : ∀ (bs : List (Str × Tree)),
     obtain ⟨k', v'⟩ := b
     simp [findKV, ih]
 
-theorem subKV_iff : ∀ (as bs : List (Str × Tree)),
+theorem subKV_iffZ : ∀ (as bs : List (Str × Tree)),
     subKV as bs = true ↔ ∀ p ∈ as, ∃ q ∈ bs, p.1 = q.1 ∧ p.2.eq q.2 = true := by
   intro as
   induction as with
@@ -84,7 +84,7 @@ theorem subKV_iff : ∀ (as bs : List (Str × Tree)),
   | cons a as ih =>
     intro bs
     obtain ⟨k, v⟩ := a
-    simp only [subKV, Bool.and_eq_true, ih bs, findKV_iff, List.mem_cons, forall_eq_or_imp]
+    simp only [subKV, Bool.and_eq_true, ih bs, findKV_iffZ, List.mem_cons, forall_eq_or_imp]
 
 /-! ### shared prefix / suffix -/
 
@@ -169,7 +169,7 @@ theorem trim_suffix (d : α) (a b : List α) (k : Nat) (h : k < (trimLens a b).2
   rwa [getD_reverse_drop d a _ k (by omega), getD_reverse_drop d b _ k (by omega)] at this
 
 omit [BEq α] in
-theorem middle_length (a : List α) (ps : Nat × Nat) : (middle a ps).length = a.length - ps.1 - ps.2 := by
+theorem middle_lengthZ (a : List α) (ps : Nat × Nat) : (middle a ps).length = a.length - ps.1 - ps.2 := by
   simp only [middle, List.length_take, List.length_drop]; omega
 
 omit [BEq α] in
@@ -190,13 +190,13 @@ theorem trim_all (d : α) (a b : List α)
     a.length = b.length ∧ ∀ i, i < a.length → (a.getD i d == b.getD i d) = true := by
   have la := trim_le_left a b
   have lb := trim_le_right a b
-  rw [middle_length, middle_length] at hl
+  rw [middle_lengthZ, middle_lengthZ] at hl
   have hlen : a.length = b.length := by omega
   refine ⟨hlen, fun i hi => ?_⟩
   by_cases h1 : i < (trimLens a b).1
   · exact trim_prefix d a b i h1
   · by_cases h2 : i < a.length - (trimLens a b).2
-    · have := hm (i - (trimLens a b).1) (by rw [middle_length]; omega)
+    · have := hm (i - (trimLens a b).1) (by rw [middle_lengthZ]; omega)
       rw [middle_getD d a _ _ (by omega), middle_getD d b _ _ (by omega)] at this
       have e : i - (trimLens a b).1 + (trimLens a b).1 = i := by omega
       rwa [e] at this
